@@ -102,11 +102,6 @@ func Copy(ctx context.Context, srcRoot, src, dstRoot, dst string, opts ...Opt) e
 		modeSet = &ms
 	}
 
-	dst, err := fs.RootPath(dstRoot, filepath.Clean(dst))
-	if err != nil {
-		return err
-	}
-
 	c, err := newCopier(dstRoot, ci.Chown, ci.Utime, ci.Mode, modeSet, ci.XAttrErrorHandler, ci.IncludePatterns, ci.ExcludePatterns, ci.AlwaysReplaceExistingDestPaths, ci.ChangeFunc)
 	if err != nil {
 		return err
@@ -126,6 +121,12 @@ func Copy(ctx context.Context, srcRoot, src, dstRoot, dst string, opts ...Opt) e
 
 	for _, src := range srcs {
 		srcFollowed, err := rootPath(srcRoot, src, ci.FollowLinks)
+		if err != nil {
+			return err
+		}
+		// resolve the destination inside its root for every source: an earlier
+		// source of this call may have put a symlink on the way
+		dst, err := fs.RootPath(dstRoot, filepath.Clean(dst))
 		if err != nil {
 			return err
 		}
